@@ -110,7 +110,7 @@ REPAIRS = [
     ('F7', lambda t: ATT_FN.sub(lambda m: m.group(1), t)),                              # footnote reference in an attachment heading
     ('F6', _unref_footnotes),
     # a reference whose marker contains a blank: no FOOTNOTE block line can carry that marker
-    ('F43', lambda t: re.sub(r'\{\{FOOTNOTE ([^}\n]*?)\}\}', lambda m: '{{FOOTNOTE ' + re.sub(r'\s+', '_', m.group(1).strip()) + '}}', t)),                                                           # unreferenced FOOTNOTE block
+    ('F43', lambda t: re.sub(r'\{\{FOOTNOTE ([^}\n]*?)\}\}', lambda m: '{{FOOTNOTE ' + (re.sub(r'\s+', '_', m.group(1).strip()) or 'm') + '}}', t)),
 ]
 
 
